@@ -251,7 +251,6 @@ func (h bgzfHeader) expectedHeaderLen() int {
 
 // ---------------------------------------------------------------------------
 
-
 func c08One(c *ctx, inp *bgzfInput, d *Driver, impl *[]string) {
 	r := c.res
 	in := *inp
